@@ -158,6 +158,64 @@ def fp_float(v):
     return struct.unpack('>d', struct.pack('>Q', bits))[0]
 
 
+
+def _term_bounds(t):
+    """(lo, hi) as Fractions for a linear Int / Real term over inputs with a declared box"""
+    try:
+        return _tb(t)
+    except (KeyError, TypeError, ValueError, ZeroDivisionError):
+        return None
+
+
+def _tb(t):
+    if z3.is_int_value(t):
+        v = Fraction(t.as_long())
+        return v, v
+    if z3.is_rational_value(t):
+        v = Fraction(t.numerator_as_long(), t.denominator_as_long())
+        return v, v
+    k = t.decl().kind()
+    if z3.is_const(t) and k == z3.Z3_OP_UNINTERPRETED:
+        lo, hi = E.ranges[t.decl().name()]
+        return Fraction(lo), Fraction(hi)
+    ch = [_tb(c) for c in t.children()]
+    if k == z3.Z3_OP_ADD:
+        return sum(c[0] for c in ch), sum(c[1] for c in ch)
+    if k == z3.Z3_OP_SUB:
+        return ch[0][0] - sum(c[1] for c in ch[1:]), ch[0][1] - sum(c[0] for c in ch[1:])
+    if k == z3.Z3_OP_UMINUS:
+        return -ch[0][1], -ch[0][0]
+    if k == z3.Z3_OP_TO_REAL:
+        return ch[0]
+    if k == z3.Z3_OP_MUL and len(ch) == 2:
+        prods = [a * b for a in ch[0] for b in ch[1]]
+        return min(prods), max(prods)
+    if k == z3.Z3_OP_ITE:
+        return min(ch[1][0], ch[2][0]), max(ch[1][1], ch[2][1])
+    raise ValueError('unsupported term')
+
+
+def _float_cells(lo, hi, limit):
+    """[(double f, upper end of the reals rounding to f, inclusive?)] covering [lo, hi] in
+    ascending order (round to nearest, ties to even), or None if more than `limit`"""
+    import math
+    import struct
+    f = float(lo)          # CPython: correctly rounded for int and Fraction
+    cells = []
+    while True:
+        nxt = math.nextafter(f, math.inf)
+        if nxt == math.inf:
+            return None
+        mid = (Fraction(f) + Fraction(nxt)) / 2
+        even = struct.unpack('>Q', struct.pack('>d', f))[0] & 1 == 0
+        cells.append((f, mid, even))
+        if (mid > hi) or (mid == hi and even):
+            return cells
+        if len(cells) >= limit:
+            return None
+        f = nxt
+
+
 def _inf_cmp(name, other):
     # finite symbolic value  <op>  +-inf / nan
     if other != other:
@@ -293,8 +351,29 @@ class SNum:
     def _unsupported(self, *a, **k):
         E.poison('symbolic number needs a concrete value (index/int/float/round)')
         raise Unsupported('concretisation')
-    __index__ = __int__ = __float__ = __round__ = __floordiv__ = __rfloordiv__ = \
+    __index__ = __int__ = __round__ = __floordiv__ = __rfloordiv__ = \
         __mod__ = __rmod__ = __pow__ = __rpow__ = _unsupported
+
+    def __float__(self):
+        """float(x) of an exact (Int / Real) symbolic number: IEEE round-to-nearest-even is a
+        step function; the declared box of the inputs bounds the term, the doubles covering that
+        interval are enumerated in ascending order and the cell the value lies in is *decided*
+        by the solver (each cell is a path).  More than 16 cells: unsupported (poison)."""
+        if _is_fp(self.e) or E.draining or E.closed:
+            return self._unsupported()
+        b = _term_bounds(self.e)
+        if b is None:
+            return self._unsupported()
+        cells = _float_cells(b[0], b[1], 16)
+        if cells is None:
+            return self._unsupported()
+        x = self.e
+        for f, hi, hi_incl in cells[:-1]:
+            # ascending cells: the lower end is implied by the previous decisions
+            bound = _z(hi)
+            if E.decide((x <= bound) if hi_incl else (x < bound)):
+                return f
+        return cells[-1][0]
 
     def __repr__(self):
         if E.draining:
@@ -497,6 +576,7 @@ class Engine:
     # ---- path life cycle
     def _begin_common(self):
         self.inputs = {}
+        self.ranges = {}       # declared box of the Int / Real inputs: name -> (lo, hi)
         self.order = []
         self.poisoned = None
         self.violations = []
@@ -536,6 +616,7 @@ class Engine:
             raise HarnessError('duplicate input %s' % name)
         v = SNum(var)
         self.inputs[name] = v
+        self.ranges[name] = (lo, hi)
         if lo is not None:
             self.solver.add(var >= lo)
         if hi is not None:
